@@ -21,6 +21,9 @@ type Case struct {
 	// Fault > 0: before the render that is checked, the same wrapper renders into a writer whose write
 	// number Fault-1 accepts half of its bytes and fails; that must not leave anything behind.
 	Fault int `json:"fault,omitempty"`
+	// Pre > 0: the wrapper is created and the table rendered once (through it and through csv.Render) after Pre-1
+	// operations, while the table is still being built; the checked render goes through that same wrapper.
+	Pre int `json:"pre,omitempty"`
 }
 
 type halfWriter struct {
@@ -57,13 +60,26 @@ func Expected(m *gen.Model) [][]string {
 }
 
 func CheckCase(c Case) *ev.Violation {
-	t, m := gen.Build(c.Script)
+	t := gen.NewTable(c.Script.Creator)
+	m := &gen.Model{}
+	var early *csv.CSVTable
+	for i, op := range c.Script.Ops {
+		if c.Pre > 0 && i == c.Pre-1 {
+			early = csv.Wrap(t)
+			early.Render()
+			csv.Render(t)
+		}
+		m.Step(t, op)
+	}
 	ncols := m.NCols()
 	if t.NColumns() != ncols {
 		return ev.V("NColumns()=%d but the build history has %d columns", t.NColumns(), ncols)
 	}
 	gen.ScrambleRowsCopy(t) // the caller may do what it likes with the copy it was handed
-	w := csv.Wrap(t)
+	w := early
+	if w == nil {
+		w = csv.Wrap(t)
+	}
 	if c.Fault > 0 {
 		hw := &halfWriter{k: c.Fault - 1}
 		if err := w.RenderTo(hw); err == nil && hw.calls > hw.k {
